@@ -51,3 +51,11 @@ Definition chk_model_roundtrip (sk : skel) (c : string * list (string * nat)) : 
 (* counters along a real kill / resume chain: (m0, d) per process and the count finally reported *)
 Definition chk_chain (effs : list ceff) (c : list (Z * Z) * Z) : bool :=
   let '(segs, reported) := c in Z.eqb (chain effs segs) reported.
+
+(* second-generation checkpoints: the state a resumed sampler holds when it writes its first checkpoint
+   at loop entry (same iteration) against the state of the sampler that wrote the checkpoint it resumed
+   from.  The clock has moved on: sampling_time and (time-triggered) _last_checkpoint may differ. *)
+Definition entry_clock_fields : list field := ["sampling_time"; "_last_checkpoint"].
+Definition chk_field_entry (c : string * string * option nat * option nat * bool) : bool :=
+  let '(cname, f, before, after, presumed) := c in
+  fmem f entry_clock_fields || chk_field c.
